@@ -458,12 +458,15 @@ func soak(f []string) string {
 				fail("ran", fmt.Sprintf("round %d %s: catch/finally/return()/later job ran %d times", i, sc.name, b))
 			}
 		}
-		// afterwards: idle, flag clear, queue empty, reusable
+		// afterwards: idle, flag clear, queue empty, reusable (with a watchdog: leftover jobs must not hang the check)
 		if fl, jobs, cs, _ := goja.VerifC15State(rt); fl != 0 || jobs != 0 || cs != 0 {
 			fail("state", fmt.Sprintf("round %d %s: state after return flag=%d jobs=%d callStack=%d", i, sc.name, fl, jobs, cs))
 		}
 		before := atomic.LoadInt64(&ticks)
+		wrt := rt
+		wd := time.AfterFunc(3*time.Second, func() { wrt.Interrupt(int64(-2)) })
 		val, err := rt.RunString("tick();41+1")
+		wd.Stop()
 		if err != nil || val.ToInteger() != 42 || atomic.LoadInt64(&ticks) != before+1 || atomic.LoadInt64(&bads) != 0 {
 			fail("reuse", fmt.Sprintf("round %d %s: runtime not reusable: %v err=%v ticks+%d", i, sc.name, val, err, atomic.LoadInt64(&ticks)-before))
 		}
